@@ -198,22 +198,22 @@ func (m *c21Model) bucketNames() []string { return vkit.SortedKeys(m.Buckets) }
 // ---------------------------------------------------------------------------
 
 type c21Step struct {
-	Op     string            `json:"op"`
-	Bucket string            `json:"b,omitempty"`
-	Key    string            `json:"k,omitempty"`
-	Bucket2 string           `json:"b2,omitempty"` // copy destination
-	Key2   string            `json:"k2,omitempty"`
-	Keys   []string          `json:"keys,omitempty"` // delete-multi
-	Size   int               `json:"size,omitempty"`
-	Seq    int               `json:"seq,omitempty"`
-	CType  string            `json:"ctype,omitempty"`
-	Tags   map[string]string `json:"tags,omitempty"`
-	Meta   *mMeta            `json:"meta,omitempty"`
-	Class  string            `json:"class,omitempty"`
-	Cond   string            `json:"cond,omitempty"`   // none-match-star | match-current | match-bogus
-	Status string            `json:"status,omitempty"` // versioning: Enabled | Suspended
-	CopyMode string          `json:"copy_mode,omitempty"` // plain | class | replace-tags | replace-meta
-	PreUs  int               `json:"pre_us,omitempty"`
+	Op       string            `json:"op"`
+	Bucket   string            `json:"b,omitempty"`
+	Key      string            `json:"k,omitempty"`
+	Bucket2  string            `json:"b2,omitempty"` // copy destination
+	Key2     string            `json:"k2,omitempty"`
+	Keys     []string          `json:"keys,omitempty"` // delete-multi
+	Size     int               `json:"size,omitempty"`
+	Seq      int               `json:"seq,omitempty"`
+	CType    string            `json:"ctype,omitempty"`
+	Tags     map[string]string `json:"tags,omitempty"`
+	Meta     *mMeta            `json:"meta,omitempty"`
+	Class    string            `json:"class,omitempty"`
+	Cond     string            `json:"cond,omitempty"`      // none-match-star | match-current | match-bogus
+	Status   string            `json:"status,omitempty"`    // versioning: Enabled | Suspended
+	CopyMode string            `json:"copy_mode,omitempty"` // plain | class | replace-tags | replace-meta
+	PreUs    int               `json:"pre_us,omitempty"`
 }
 
 func c21Content(key string, client, seq, size int) []byte {
